@@ -462,6 +462,11 @@ class NumParam(BaseParam):
             else:
                 value = self.default
 
+        # Apply the sanity rules to any real number. Integers (as delivered by the xlsx reader) used to
+        # bypass them, so the same case gave different parameters when read from xlsx and from json.
+        if isinstance(value, (int, np.integer, np.floating)) and not isinstance(value, (bool, np.bool_)):
+            value = float(value)
+
         if isinstance(value, float):
             # check for non-zero
             if value == 0.0 and self.get_property('non_zero'):
